@@ -2,7 +2,7 @@
    harness compares the text of a theorem with the emitted text, the theorem does apply to that handler. *)
 From Coq Require Import ZArith List Bool String Lia.
 From DRX Require Import Proofs.LingoNestFacts Py.PyBytes Py.PyStr Py.PyString Py.Val Model.LingoAst Model.LingoGen Model.LingoOps
-  Spec.SpecLingo Spec.SpecText Spec.SpecJs Spec.SpecNest Spec.SpecFor Spec.SpecIO
+  Gen.Gen_Lingo Spec.SpecLingo Spec.SpecText Spec.SpecJs Spec.SpecNest Spec.SpecFor Spec.SpecIO
   Proofs.LingoExecFacts Proofs.LingoTextFacts Proofs.LingoJsFacts Proofs.LingoNestText Proofs.LingoNestJs Proofs.LingoNestForText.
 Import ListNotations.
 
@@ -21,6 +21,7 @@ Proof.
   - intros f pid x IHx H. apply IHx. exact H.
   - intros pid it mn IHi IHm H. apply andb_true_iff in H. destruct H as [Hi Hm]. split; [apply IHi | apply IHm]; assumption.
   - intros k i H. destruct k; try exact I. exact H.
+  - intros n x IHx H. apply andb_true_iff in H. destruct H as [Hx Hp]. split; [apply IHx; exact Hx | exact Hp].
   - intros x l IHx IHl H. cbn [forallb] in H. apply andb_true_iff in H. destruct H as [Hx Hl]. split; [apply IHx | apply IHl]; assumption.
 Qed.
 
@@ -45,6 +46,7 @@ Proof.
   - intros f pid x IHx H. apply andb_true_iff in H. destruct H as [Hx Hf]. split; [apply IHx; exact Hx|].
     destruct f; try exact I; apply negb_true_iff in Hf; exact Hf.
   - intros pid it mn IHi IHm H. apply andb_true_iff in H. destruct H as [Hi Hm]. split; [apply IHi | apply IHm]; assumption.
+  - intros n x _ H. discriminate H.
   - intros x l IHx IHl H. cbn [forallb] in H. apply andb_true_iff in H. destruct H as [Hx Hl]. split; [apply IHx | apply IHl]; assumption.
 Qed.
 Lemma js_okb_args_sound en l : forallb (js_okb en) l = true -> js_ok_args en l.
@@ -130,12 +132,14 @@ Proof.
     + repeat match goal with |- context [let '(a, b) := ?X in _] => destruct X end; destruct items; reflexivity.
     + destruct f; reflexivity.
     + destruct k; reflexivity.
+    + unfold the_name_node. destruct (assoc_str (nm en n) ASSIGN_KNOWN_PROPERTIES); reflexivity.
   - repeat match goal with |- context [let '(a, b) := ?X in _] => destruct X end; reflexivity.
   - repeat match goal with |- context [let '(a, b) := ?X in _] => destruct X end; reflexivity.
   - repeat match goal with |- context [let '(a, b) := ?X in _] => destruct X end; reflexivity.
   - repeat match goal with |- context [let '(a, b) := ?X in _] => destruct X end; destruct items; reflexivity.
   - destruct f; reflexivity.
   - destruct k; reflexivity.
+  - unfold the_name_node. destruct (assoc_str (nm en n) ASSIGN_KNOWN_PROPERTIES); reflexivity.
 Qed.
 
 Lemma ok2b_sound en : forall q, ok2b en q = true -> ok2 en q.
